@@ -276,7 +276,7 @@ PREDEF_PARAM_NAMES = ['ramp', 'setpoint', 'mode', 'use_ramp']
 
 def gen_param(rng, attr, numeric=False):
     spec = gen_dtspec(rng, numeric=numeric)
-    export = rng.choices([True, False, 'custom'], [0.78, 0.08, 0.14])[0]
+    export = rng.choices([True, False, 'custom'], [0.8, 0.05, 0.15])[0]
     p = {'attr': attr, 'dt': spec, 'readonly': rng.random() < 0.3, 'export': export,
          'has_read': rng.random() < 0.5, 'has_write': rng.random() < 0.7,
          'constant': False, 'default': rng.random() < 0.85, 'limit': None}
@@ -345,7 +345,7 @@ def gen_modspec(rng, name, big):
             nopt = rng.randint(0, len(mem))
             arg = ['struct', [[n, gen_dtspec(rng, depth=2)] for n in mem], mem[len(mem) - nopt:]]
         res = gen_dtspec(rng, depth=2) if rng.random() < 0.5 else None
-        export = rng.choices([True, False, 'custom'], [0.75, 0.15, 0.1])[0]
+        export = rng.choices([True, False, 'custom'], [0.83, 0.07, 0.1])[0]
         if export == 'custom':
             export = custom_pool.pop()
         layers[rng.choice([0, 1])]['commands'].append({'attr': cn, 'arg': arg, 'res': res, 'export': export})
@@ -366,12 +366,14 @@ def gen_modspec(rng, name, big):
             cfg[p['attr']] = {'readonly': not p['readonly']}
         elif r < 0.26 and p['export'] is False:
             cfg[p['attr']] = {'export': True}
-    return {'name': name, 'base': base, 'exported': rng.random() < 0.9, 'layers': layers, 'cfg': cfg}
+    return {'name': name, 'base': base, 'exported': rng.random() < 0.8, 'layers': layers, 'cfg': cfg}
 
 
 def gen_nodespec(rng, big):
     n = rng.choice([1, 1, 2, 2, 3] if big else [1, 1, 2])
-    return {'modules': [gen_modspec(rng, 'm%d' % (i + 1), big) for i in range(n)]}
+    mods = [gen_modspec(rng, 'm%d' % (i + 1), big) for i in range(n)]
+    mods[0]['exported'] = True     # a node whose only module is hidden answers NoSuch... to everything
+    return {'modules': mods}
 
 
 # ----------------------------------------------------------------------------------------
@@ -611,6 +613,21 @@ def props_json(aobj, drop):
     return [[k, canonj(v)] for k, v in ep.items() if k not in drop]
 
 
+def is_limits_pair(dt):
+    from frappy.datatypes import LimitsType
+    return isinstance(dt, LimitsType)
+
+
+def datainfo_validate(dt):
+    """validate() as far as the described datainfo can express it.  A LimitsType is described as a plain tuple; its
+    additional order test (min <= max) is a dynamic-limit condition which the MODEL decides (pairInverted), so the
+    oracle handed to the model for `accept` is the tuple part only."""
+    from frappy.datatypes import TupleOf
+    if is_limits_pair(dt):
+        return lambda value, previous=None: TupleOf.validate(dt, value, previous)
+    return dt.validate
+
+
 def node_json(node, nodespec=None, classes=None):
     from frappy.params import Parameter, Command, Limit
     mods = []
@@ -638,6 +655,7 @@ def node_json(node, nodespec=None, classes=None):
                     'kind': 'param', 'attr': attr, 'exp': exp,
                     'limitHead': attr.rpartition('_')[0] if (isinstance(aobj, Limit) and ms is not None
                                                              and not (cfgover and 'export' in cfgover)) else None,
+                    'isLimitsPair': is_limits_pair(aobj.datatype),
                     'readonly': bool(aobj.readonly),
                     'constant': None if aobj.constant is None else canon(aobj.constant),
                     'value': canon(aobj.value), 'readerror': readerror_json(aobj),
@@ -715,7 +733,7 @@ def guess_wire(rng, attr, exp, kind):
     else:
         right = '_' + attr
     r = rng.random()
-    if r < 0.9:
+    if r < 0.95:
         return right
     return rng.choice([attr, '_' + attr, right + 'x', '__' + attr, right.upper(), ''])
 
@@ -726,24 +744,34 @@ def gen_steps(rng, nodespec, nsteps):
     cmds = [e for e in idx if e[2] == 'command']
     limits = [e for e in params if e[1].rpartition('_')[2] in ('min', 'max', 'limits') and e[3] is not None]
     limited = [e for e in params if any(l[0] == e[0] and l[1].rpartition('_')[0] == e[1] for l in limits)]
+    hidden_mods = {ms['name'] for ms in nodespec['modules'] if not ms['exported']}
+
+    def pick(pool):
+        """mostly accessibles of exported modules (everything of an unexported module is just NoSuch...)"""
+        e = rng.choice(pool)
+        if e[0] in hidden_mods and rng.random() < 0.8:
+            e = rng.choice(pool)
+        return e
     steps = []
     for i in range(nsteps):
         r = rng.random()
         kind = 'change' if r < 0.58 else 'do' if r < 0.78 else 'read'
+        if kind == 'do' and not cmds and rng.random() < 0.85:
+            kind = 'change'
         script = rng.choices([s for s, _ in SCRIPTS[kind]], [w for _, w in SCRIPTS[kind]])[0]
         t = rng.random()
         data = None
         if kind == 'do':
-            if t < 0.7 and cmds:
-                m, a, _, argspec, exp = rng.choice(cmds)
+            if t < 0.86 and cmds:
+                m, a, _, argspec, exp = pick(cmds)
                 spec = '%s:%s' % (m, guess_wire(rng, a, exp, 'command'))
                 c = rng.random()
                 if argspec is None:
                     data = None if c < 0.8 else rng.choice(JUNK)
                 else:
                     data = None if c < 0.12 else gen_payload(rng, argspec)[0]
-            elif t < 0.8 and params:
-                m, a, _, _, exp = rng.choice(params)
+            elif t < 0.91 and params:
+                m, a, _, _, exp = pick(params)
                 spec = '%s:%s' % (m, guess_wire(rng, a, exp, 'param'))
                 data = rng.choice([None, 1])
             else:
@@ -753,16 +781,16 @@ def gen_steps(rng, nodespec, nsteps):
             pool = params
             if kind == 'change' and t < 0.45 and (limits or limited):
                 pool = (limits + limited) or params
-            if t < 0.86 and pool:
-                m, a, _, dtspec, exp = rng.choice(pool)
+            if t < 0.93 and pool:
+                m, a, _, dtspec, exp = pick(pool)
                 wire = guess_wire(rng, a, exp, 'param')
                 spec = '%s:%s' % (m, wire)
                 if a in ('target', 'value') and rng.random() < 0.3:
                     spec = m
                 if kind == 'change':
                     data = gen_payload(rng, dtspec)[0]
-            elif t < 0.92 and cmds:
-                m, a, _, _, exp = rng.choice(cmds)
+            elif t < 0.96 and cmds:
+                m, a, _, _, exp = pick(cmds)
                 spec = '%s:%s' % (m, guess_wire(rng, a, exp, 'command'))
                 data = rng.choice(JUNK) if kind == 'change' else None
             else:
@@ -823,11 +851,18 @@ def param_oracle(orc, box, modobj, mycls, attr, pobj, payload, kind, raws):
     if pobj.constant is not None:
         exp_safe(pobj.constant)
     if kind == 'change':
-        r = oracle_call(lambda: dt.validate(dt.import_value(payload), previous=cur))
+        r = oracle_call(lambda: datainfo_validate(dt)(dt.import_value(payload), previous=cur))
         orc.put('accept', [m, attr, canonj(payload), canon(cur)], orc.res(r))
         if r[0] == 'ok':
             v = r[1]
             exp_safe(v)
+            if is_limits_pair(dt):
+                try:
+                    lo, hi = v
+                    orc.put('split', [canon(v)], [canon(lo), canon(hi)])
+                    cmp_tables(orc, [lo, hi])
+                except Exception:
+                    pass
             r2 = oracle_call(dt.validate, v)
             orc.put('reval', [m, attr, canon(v)], orc.res(r2))
             if r2[0] == 'ok':
@@ -1105,6 +1140,8 @@ def run(ctx):
             kinds.add(c)
             if st['obs']['calls']:
                 res.count('driver.called.' + st['req'][0])
+            if st['req'][0] == 'change' and (st['req'][1] or '').endswith('_limits'):
+                res.count('limits-pair.' + (st['obs']['reply'][0] if st['obs']['reply'][0] != 'error' else st['obs']['reply'][1]))
         limit_used = bool(rec['oracle']['le']) or bool(rec['oracle']['chk'])
         res.count('oracle.limit-comparisons', len(rec['oracle']['le']))
         res.count('oracle.limit-comparisons.false', sum(1 for r in rec['oracle']['le'] if r[-1] is False))
